@@ -10,6 +10,7 @@ virtual instants so that several invocations resolve their resources at the same
 Every factory call and every step body reports to a recorder; nothing is decided here.
 """
 import asyncio
+import contextvars
 import inspect
 from typing import Annotated
 
@@ -18,6 +19,16 @@ from workflows.events import Event, StartEvent, StopEvent
 from workflows.resource import Resource
 
 from vf import vclock
+
+
+# the resolution window (set by the probe around the step's resource resolution) the current code runs for; tasks spawned
+# inside the resolution (e.g. asyncio.gather over a step's parameters) inherit it, so attribution does not lean on task identity
+INV = contextvars.ContextVar("vf_c22_invocation", default=None)
+
+
+def owner_task():
+    w = INV.get()
+    return w["task"] if w is not None else asyncio.current_task()
 
 
 class Item0(Event):
@@ -73,7 +84,7 @@ def _make_factory(node, rec):
     fails = {"left": int(node.get("fail_first", 0))}
 
     def begin(deps):
-        t = asyncio.current_task()
+        t = owner_task()
         rec.keep.append(t)
         if fails["left"] > 0:
             fails["left"] -= 1
